@@ -72,7 +72,7 @@ Proof. apply root_failure_nulls_data. Qed.
    origin is the path of some entry of `errors`, and every entry of `errors` carries a path which
    is one of the origins: nothing unexplained is nulled, no entry points elsewhere. *)
 Theorem C02_errors_are_exactly_the_specified_origins op root d o :
-  parent_concurrently cfg = true -> o_kind op <> OpMutation ->
+  (forall t k ns, field_conc cfg t k ns = true) -> o_kind op <> OpMutation ->
   spec_execute_operation sch doc vs U op root = Some (d, o) ->
   exists r, execute_operation sch doc vs U cfg op root = OVal r /\ r_data r = d /\
             (forall p, In p o -> exists e, In e (r_errors r) /\ g_path e = Some p) /\
@@ -122,7 +122,7 @@ Definition c02_op : operation :=
 Example C02_nonvacuous :
   spec_execute_operation c02_sch c02_doc [] c02_U c02_op PNone =
     Some (PDict [("a", PDict [("x", PNone); ("y", PNone)])], [[KName "a"; KName "x"]; [KName "a"; KName "y"]]%list) /\
-  match execute_operation c02_sch c02_doc [] c02_U {| parent_concurrently := true; list_concurrently := true |} c02_op PNone with
+  match execute_operation c02_sch c02_doc [] c02_U (uniform_cfg true true) c02_op PNone with
   | OVal r => map g_path (r_errors r) = [Some [KName "a"; KName "x"]; Some [KName "a"; KName "y"]]%list
   | _ => False
   end.
